@@ -1058,10 +1058,13 @@ def scaling(ctx):
         cfgs += [(("mu", mus[0]), 1, 6), (("mu", mus[0]), 2, 5), (("mu", mus[1]), 2, 6), (("mu", mus[1]), 1, 4)]
         ndir = 6
     else:
-        cfgs = [("EM", lk, N) for lk in (1, 2) for N in (4, 5, 6)]
+        # quick: one degree per collinear point (which point gets which degree depends on the seed) + one seeded mass parameter;
+        # every conversion costs ~1-2 s on the real pipeline, degree 6 and the full point x degree grid are in the thorough tier
+        lk = 1 + ctx.seed % 2
+        cfgs = [("EM", lk, 4), ("EM", 3 - lk, 5)]
         mu = 10 ** rng.uniform(-3.2, -1.0)
-        cfgs += [(("mu", mu), rng.choice([1, 2]), 5)]
-        ndir = 4
+        cfgs += [(("mu", mu), rng.choice([1, 2]), 4)]
+        ndir = 3
     consts = {}
     table = []
     for cfg in cfgs:
@@ -1239,7 +1242,7 @@ def run(ctx):
                 "x fixed-value dicts (incl. ignored and overwritten keys) x guesses/factors/max_expand/symmetric x branches {root up, root down, "
                 "no sign change, residual(0)>0, root finder gives up}; all four section coordinates for lift/build/enforce/plane; public "
                 "to_synodic(pt2, energy, section) on real centre manifolds with the residuals replayed as an oracle table. Numerics: real EM L1/L2 "
-                "(+ seeded mu), degrees 4..6 (thorough ..8, 10), random and axis-dominated directions, radii 0.4*2^(-j/2); a case is non-trivial when "
+                "(+ seeded mu), degrees 4..5 (thorough 4..8, 10), random and axis-dominated directions, radii 0.4*2^(-j/2); a case is non-trivial when "
                 "the call evaluates the residual at least twice / returns a state / has >= 3 radii above the rounding floor")
     ctx.assumptions += [
         "model arithmetic is exact; NaN residuals are not modelled; `float()`/dtype casts are identities",
